@@ -280,10 +280,11 @@ class in_zone(object):
 
     def __enter__(self):
         import os
+        self.prev = os.environ.get('TZ', 'UTC')
         os.environ['TZ'] = self.tz
         _time.tzset()
 
     def __exit__(self, *a):
         import os
-        os.environ['TZ'] = 'UTC'
+        os.environ['TZ'] = self.prev        # (nested uses restore the enclosing zone)
         _time.tzset()
